@@ -90,6 +90,10 @@ package cl
 //@   ensures fixnum-nearest-types: (is(num, slip.Fixnum) && is(div, slip.Fixnum) && as(num, slip.Fixnum) > 0 - 9223372036854775808 && as(div, slip.Fixnum) > 0 - 9223372036854775808) ==> (is(q, slip.Fixnum) && is(r, slip.Fixnum))
 //@   ensures fixnum-nearest-identity: (is(num, slip.Fixnum) && is(div, slip.Fixnum) && as(num, slip.Fixnum) > 0 - 9223372036854775808 && as(div, slip.Fixnum) > 0 - 9223372036854775808) ==> as(num, slip.Fixnum) == as(q, slip.Fixnum) * as(div, slip.Fixnum) + as(r, slip.Fixnum)
 //@   ensures fixnum-nearest-half: (is(num, slip.Fixnum) && is(div, slip.Fixnum) && as(num, slip.Fixnum) > 0 - 9223372036854775808 && as(div, slip.Fixnum) > 0 - 9223372036854775808) ==> 2 * abs(as(r, slip.Fixnum)) <= abs(as(div, slip.Fixnum))
+//@   ensures fixnum-nearest-half-pp: (is(num, slip.Fixnum) && is(div, slip.Fixnum) && as(num, slip.Fixnum) > 0 - 9223372036854775808 && as(div, slip.Fixnum) > 0 - 9223372036854775808 && as(num, slip.Fixnum) >= 0 && as(div, slip.Fixnum) > 0) ==> (2 * as(r, slip.Fixnum) <= as(div, slip.Fixnum) && 0 - 2 * as(r, slip.Fixnum) <= as(div, slip.Fixnum))
+//@   ensures fixnum-nearest-half-pn: (is(num, slip.Fixnum) && is(div, slip.Fixnum) && as(num, slip.Fixnum) > 0 - 9223372036854775808 && as(div, slip.Fixnum) > 0 - 9223372036854775808 && as(num, slip.Fixnum) >= 0 && as(div, slip.Fixnum) < 0) ==> (2 * as(r, slip.Fixnum) <= (0 - as(div, slip.Fixnum)) && 0 - 2 * as(r, slip.Fixnum) <= (0 - as(div, slip.Fixnum)))
+//@   ensures fixnum-nearest-half-np: (is(num, slip.Fixnum) && is(div, slip.Fixnum) && as(num, slip.Fixnum) > 0 - 9223372036854775808 && as(div, slip.Fixnum) > 0 - 9223372036854775808 && as(num, slip.Fixnum) < 0 && as(div, slip.Fixnum) > 0) ==> (2 * as(r, slip.Fixnum) <= as(div, slip.Fixnum) && 0 - 2 * as(r, slip.Fixnum) <= as(div, slip.Fixnum))
+//@   ensures fixnum-nearest-half-nn: (is(num, slip.Fixnum) && is(div, slip.Fixnum) && as(num, slip.Fixnum) > 0 - 9223372036854775808 && as(div, slip.Fixnum) > 0 - 9223372036854775808 && as(num, slip.Fixnum) < 0 && as(div, slip.Fixnum) < 0) ==> (2 * as(r, slip.Fixnum) <= (0 - as(div, slip.Fixnum)) && 0 - 2 * as(r, slip.Fixnum) <= (0 - as(div, slip.Fixnum)))
 //@   ensures fixnum-nearest-tie-even: (is(num, slip.Fixnum) && is(div, slip.Fixnum) && as(num, slip.Fixnum) > 0 - 9223372036854775808 && as(div, slip.Fixnum) > 0 - 9223372036854775808) ==> (2 * abs(as(r, slip.Fixnum)) == abs(as(div, slip.Fixnum)) ==> as(q, slip.Fixnum) % 2 == 0)
 //@   ensures bignum-nearest: (is(num, ptr(slip.Bignum)) && is(q, ptr(slip.Bignum)) && is(r, ptr(slip.Bignum))) ==> (bigval(num) == bigval(q) * bigval(div) + bigval(r) && 2 * abs(bigval(r)) <= abs(bigval(div)) && (2 * abs(bigval(r)) == abs(bigval(div)) ==> bigval(q) % 2 == 0))
 //@ func cl.(*Mod).Call
